@@ -57,6 +57,8 @@ pub struct Inner {
     pub switches: u64,
     pub sched_hash: u64,
     pub io_n: u64,
+    /// step of the last client-visible progress (mutating I/O event, API invocation or return)
+    pub last_progress: u64,
     faults: Vec<(Fault, bool)>,
     pending_exit_after_store: bool,
     pub step_budget: u64,
@@ -80,6 +82,11 @@ thread_local! {
 fn my_tid() -> Option<usize> {
     TID.with(|t| t.get())
 }
+
+/// steps without any mutating I/O event or API event after which a run that exhausts its step
+/// budget counts as stuck
+pub const PROGRESS_WINDOW: u64 = 150_000;
+pub const PROGRESSING_MSG: &str = "step budget exceeded while progressing";
 
 impl Sim {
     pub fn new(
@@ -112,6 +119,7 @@ impl Sim {
             switches: 0,
             sched_hash: 0xcbf29ce484222325,
             io_n: 0,
+            last_progress: 0,
             faults: faults.into_iter().map(|f| (f, false)).collect(),
             pending_exit_after_store: false,
             step_budget: budget,
@@ -169,6 +177,7 @@ impl Sim {
             let mut g = self.inner.lock().unwrap();
             g.threads[me].cur_op = op;
             g.threads[me].op_io = 0;
+            g.last_progress = g.step;
         }
     }
 
@@ -234,7 +243,11 @@ impl Sim {
                 .iter()
                 .map(|t| format!("{}:{:?}@{}", t.name, t.status, t.site))
                 .collect();
-            self.die(g, "nonterm", EXIT_NONTERM, format!("step budget exceeded; {:?}", sites));
+            // A run that is still performing I/O or completing operations is long, not stuck:
+            // the parent counts it as inconclusive instead of reporting non-termination.
+            let progressing = g.step - g.last_progress < PROGRESS_WINDOW;
+            let what = if progressing { PROGRESSING_MSG } else { "step budget exceeded" };
+            self.die(g, "nonterm", EXIT_NONTERM, format!("{}; {:?}", what, sites));
         }
         if g.cfg.ns_per_step > 0 {
             let d = g.rng.range(0, g.cfg.ns_per_step);
@@ -621,6 +634,7 @@ impl Hooks for Sim {
         }
         g.io_n += 1;
         g.threads[me].op_io += 1;
+        g.last_progress = g.step;
         let rec = IoRec {
             n: g.io_n,
             kind: kind_name(ev.kind).into(),
@@ -722,6 +736,7 @@ impl Hooks for Sim {
         let mut g = self.inner.lock().unwrap();
         g.io_n += 1;
         g.threads[me].op_io += 1;
+        g.last_progress = g.step;
         let step = g.step;
         let cur_op = g.threads[me].cur_op;
         let rec = IoRec {
